@@ -4,7 +4,8 @@ side condition can be checked syntactically; anything else is left alone (and th
 
   1. a call statement `self.h(a1, .., k=ak)` to a plain method h of the same class whose body contains no `return <value>`, no `yield`
      and whose only `return`s end the body or a guard clause, is replaced by h's body with the parameters substituted - the arguments must
-     be side-effect-free expressions (names, attribute chains, constants, `self.time`-arithmetic);
+     be side-effect-free expressions (names, attribute chains, constants, `self.time`-arithmetic; a list display of such expressions only
+     for a parameter that h reads exactly once, as the iterable of a `for` - step 2 then unrolls that loop);
   1b. a call `self.h(..)` inside an expression, h's body being a single `return <constructor call>` or a chain of guard returns of
       side-effect-free values (`if c: return A` .. `return B`, read as `A if c else B`), is replaced by that expression;
   1c. `for x in self.h(..):` / `y = self.h(..)` / `return self.h(..)` (an argument may be a one-parameter lambda, applied by
@@ -19,7 +20,10 @@ side condition can be checked syntactically; anything else is left alone (and th
   4c. a local bound once to `d[k]` (side-effect-free d, k; neither d[k], d nor their ingredients stored to afterwards) is replaced by `d[k]`;
   5b. `if c: x = A  else: x = B` becomes `x = A if c else B`;
   5c. `d[A if c else B] = v` / `f(A if c else B)` as statements, all ingredients side-effect-free, become an `if`;
-  5. `(A if c else B)[i] op= e`  becomes  `if c: A[i] op= e  else: B[i] op= e`  (c side-effect-free)."""
+  5. `(A if c else B)[i] op= e`  becomes  `if c: A[i] op= e  else: B[i] op= e`  (c side-effect-free);
+  6. `if not c: A  else: B` (B non-empty) becomes `if c: B  else: A` (`else: pass` dropped); `a not in b` counts as `not (a in b)`;
+  7. `T = T + k` / `T = T - k`, T a side-effect-free target read and written as the same text, k a numeric constant, becomes `T += k` /
+     `T -= k` (with a numeric constant on the right the two spellings agree for every type of T, error included)."""
 import ast
 import copy
 
@@ -96,11 +100,21 @@ def inline_helpers(body, cls, depth=0):
                 and isinstance(s.value.func.value, ast.Name) and s.value.func.value.id == "self"):
             hs = [n for n in cls.body if isinstance(n, ast.FunctionDef) and n.name == s.value.func.attr and not n.decorator_list]
             c = s.value
-            if len(hs) == 1 and all(pure(a) for a in c.args) and all(k.arg and pure(k.value) for k in c.keywords):
+            def _disp(e):
+                return isinstance(e, ast.List) and all(pure(x) for x in e.elts)
+            if len(hs) == 1 and all(pure(a) or _disp(a) for a in c.args) and all(k.arg and (pure(k.value) or _disp(k.value)) for k in c.keywords):
                 h = hs[0]
                 a = h.args
                 params = [x.arg for x in a.args][1:]
                 hb = _nodoc(h.body)
+                # a list display as an argument: only for a parameter the helper reads exactly once, as the iterable of a `for`
+                bound = dict(zip(params, c.args))
+                bound.update({k.arg: k.value for k in c.keywords})
+                iters = [n.iter.id for q in hb for n in ast.walk(q) if isinstance(n, ast.For) and isinstance(n.iter, ast.Name)]
+                reads = [n.id for q in hb for n in ast.walk(q) if isinstance(n, ast.Name)]
+                if any(_disp(v) and not (reads.count(pn) == 1 and iters.count(pn) == 1) for pn, v in bound.items()):
+                    hs = []
+            if len(hs) == 1 and all(pure(a) or _disp(a) for a in c.args) and all(k.arg and (pure(k.value) or _disp(k.value)) for k in c.keywords):
                 assigned = {n.id for q in hb for n in ast.walk(q) if isinstance(n, ast.Name) and isinstance(n.ctx, ast.Store)}
                 if (not (a.vararg or a.kwarg or a.kwonlyargs or a.defaults) and len(c.args) <= len(params) and _returns_ok(hb)
                         and not (assigned & set(params))):
@@ -523,6 +537,45 @@ def split_cells(body):
     return out
 
 
+def _neg2(e):
+    """the condition whose negation is e: `not <c>`, or `a not in b` (by definition the negation of `a in b`)"""
+    if isinstance(e, ast.Compare) and len(e.ops) == 1 and isinstance(e.ops[0], ast.NotIn):
+        return ast.Compare(left=copy.deepcopy(e.left), ops=[ast.In()], comparators=copy.deepcopy(e.comparators))
+    return _neg(e)
+
+
+def unnegate(body):
+    """step 6"""
+    out = []
+    for s in body:
+        if isinstance(s, (ast.If, ast.For)):
+            s = copy.deepcopy(s)
+            s.body = unnegate(s.body)
+            s.orelse = unnegate(s.orelse)
+            if isinstance(s, ast.If) and _neg2(s.test) is not None and s.body and [q for q in s.orelse if not isinstance(q, ast.Pass)]:
+                s.test = _neg2(s.test)
+                s.body, s.orelse = s.orelse, ([] if all(isinstance(q, ast.Pass) for q in s.body) else s.body)
+        out.append(s)
+    return out
+
+
+def augment(body):
+    """step 7"""
+    out = []
+    for s in body:
+        if isinstance(s, (ast.If, ast.For)):
+            s = copy.deepcopy(s)
+            s.body = augment(s.body)
+            s.orelse = augment(s.orelse)
+        elif (isinstance(s, ast.Assign) and len(s.targets) == 1 and isinstance(s.targets[0], (ast.Name, ast.Attribute, ast.Subscript))
+              and isinstance(s.value, ast.BinOp) and isinstance(s.value.op, (ast.Add, ast.Sub))
+              and isinstance(s.value.right, ast.Constant) and type(s.value.right.value) in (int, float)
+              and ast.unparse(s.value.left) == ast.unparse(s.targets[0]) and pure(s.value.left)):
+            s = ast.AugAssign(target=copy.deepcopy(s.targets[0]), op=copy.deepcopy(s.value.op), value=copy.deepcopy(s.value.right))
+        out.append(s)
+    return out
+
+
 def normalise(fn, cls, returns_none, keep=(), only_inlining=False):
     body = _nodoc(fn.body)
     body = inline_helpers(body, cls)
@@ -536,4 +589,5 @@ def normalise(fn, cls, returns_none, keep=(), only_inlining=False):
     body = aliases(body, keep)
     body = next_use(body)
     body = split_cells(body)
+    body = augment(unnegate(body))
     return [ast.fix_missing_locations(s) for s in body]
